@@ -340,7 +340,12 @@ class BDDNonTerminalNode(BDDNode):
                 if succ.value:
                     repr.append('%s%s' % (neg, self.var))
             else:
-                repr.append('%s%s & %s' % (neg, self.var, succ))
+                text = '%s' % (succ)
+                if all([not isinstance(s, BDDTerminalNode) or s.value
+                        for s in [succ.low, succ.high]]):
+                    # succ prints as a disjunction: keep it together
+                    text = '(%s)' % (text)
+                repr.append('%s%s & %s' % (neg, self.var, text))
 
         if len(repr) == 2:
             return '(%s) | (%s)' % (repr[0], repr[1])
